@@ -261,8 +261,23 @@ fn main() {
             .collect();
         let used: Vec<usize> = tidx.iter().copied().filter(|x| *x != usize::MAX).collect();
         let start_nt_of_cfg: usize = a.user_start[1..].parse().unwrap();
-        for _ in 0..per_grammar {
-            let mut kinds: Vec<Option<usize>> = match r.below(10) {
+        // systematic truncation: every proper prefix of a few short sentences (end-of-input error paths)
+        let mut prefix_inputs: Vec<Vec<Option<usize>>> = vec![];
+        for _ in 0..4 {
+            if let Some(s) = { let b = 2 + r.below(10); cfg.sample(&mut r, start_nt_of_cfg, b) } {
+                if s.len() <= 9 && s.iter().all(|t| tidx[*t] != usize::MAX) {
+                    for k in 0..s.len() {
+                        prefix_inputs.push(s[..k].iter().map(|t| Some(tidx[*t])).collect());
+                    }
+                }
+            }
+        }
+        prefix_inputs.sort();
+        prefix_inputs.dedup();
+        prefix_inputs.truncate(24);
+        for pi in 0..per_grammar + prefix_inputs.len() {
+            let is_prefix_input = pi >= per_grammar;
+            let mut kinds: Vec<Option<usize>> = if is_prefix_input { prefix_inputs[pi - per_grammar].clone() } else { match r.below(10) {
                 0..=6 => match { let b = 2 + r.below(25); cfg.sample(&mut r, start_nt_of_cfg, b) } {
                     Some(s) => s.iter().map(|t| Some(tidx[*t])).collect(),
                     None => vec![],
@@ -271,19 +286,19 @@ fn main() {
                     let n = r.below(7);
                     (0..n).map(|_| if used.is_empty() { None } else { Some(*r.pick(&used)) }).collect()
                 }
-            };
+            } };
             kinds.retain(|k| *k != Some(usize::MAX));
-            if r.chance(1, 6) && !kinds.is_empty() {
+            if !is_prefix_input && r.chance(1, 6) && !kinds.is_empty() {
                 let keep = r.below(kinds.len());
                 kinds.truncate(keep);
             }
-            if r.chance(1, 8) && !used.is_empty() {
+            if !is_prefix_input && r.chance(1, 8) && !used.is_empty() {
                 let j = r.below(kinds.len() + 1);
                 for _ in 0..2 + r.below(3) {
                     kinds.insert(j, Some(*r.pick(&used)));
                 }
             }
-            for _ in 0..r.below(3) {
+            for _ in 0..(if is_prefix_input { 0 } else { r.below(3) }) {
                 match r.below(4) {
                     0 if !kinds.is_empty() => {
                         let j = r.below(kinds.len());
@@ -315,11 +330,11 @@ fn main() {
                     StreamItem::Tok(l, *k, rr)
                 })
                 .collect();
-            if r.chance(1, 12) {
+            if !is_prefix_input && r.chance(1, 12) {
                 let j = r.below(items.len() + 1);
                 items.insert(j, StreamItem::Err(r.below(50) as u64));
             }
-            let fail_at = if r.chance(1, 6) { Some(r.below(6)) } else { None };
+            let fail_at = if !is_prefix_input && r.chance(1, 6) { Some(r.below(6)) } else { None };
             let f = fail_at.map(|f| f.to_string()).unwrap_or_else(|| "-".into());
             reqs.push(format!("runc fail={f} start=0 input={}", items_field(&items)));
             cases.push(format!("{gi} {f} {}", items_field(&items)));
